@@ -202,6 +202,9 @@ def run(ctx):
                 d = calc.interstitial_data(s, rng, 0, hi)
                 # inequivalent site types get DIFFERENT prefactors (levels are a random injective choice)
                 d["preL"] = rng.sample(range(-2, max(3, s.Nsite)), s.Nsite)
+                if rep % 3 == 1:
+                    # realistic absolute barriers: every rate (and relaxation rate) is of order 2^-40 ~ 1e-12
+                    d["eneTL"] = [e + 40 for e in d["eneTL"]]
                 dipL = [hp.int_dipole(rng, dim) for _ in range(s.Nsite)]
                 payload = {"world": name, "chem": chem, "shell": s.shell, "data": d, "lattice": s.crys.lattice.tolist(),
                            "site_dipoles_lattice": [P.tolist() for P in dipL]}
